@@ -50,7 +50,10 @@ var mcpTools = map[string]toolRef{
 	"instance_start": {3, false, true, true}, "instance_stop": {3, false, true, true}, "instance_reload": {3, false, true, true},
 }
 
-var mcpUnknownTools = []string{"messages_purge", "config_apply ", "CONFIG_APPLY", "instance_restart"}
+var mcpUnknownTools = []string{"messages_purge", "CONFIG_APPLY", "instance_restart", "Dlq_Delete"}
+
+// names that differ from a tool's name by surrounding white space only
+var mcpPaddedTools = []string{"config_apply ", " config_apply", "dlq_delete\t", "messages_cancel\n", " messages_publish ", "instance_reload ", " queue_stats", "management_endpoint_delete "}
 
 func roleRankRef(r string) int {
 	switch r {
@@ -308,14 +311,40 @@ func RunMCPProgram(p *Program) *Result {
 				}
 			}
 			// tools/call for every tool
-			for _, n := range append(names, mcpUnknownTools...) {
+			for _, n := range append(append(append([]string(nil), names...), mcpUnknownTools...), mcpPaddedTools...) {
 				res.Ops++
 				before := env.snapshot()
-				resp, audit := env.call(c, "tools/call", map[string]any{"name": n, "arguments": benignArgs(n, env, "")})
+				resp, audit := env.call(c, "tools/call", map[string]any{"name": n, "arguments": benignArgs(strings.TrimSpace(n), env, "")})
 				after := env.snapshot()
 				t, known := mcpTools[n]
 				allowed := c.allowed(n)
 				isErr := isErrorResult(resp)
+				if tt := strings.TrimSpace(n); tt != n {
+					// A name that is not exactly a tool's name: either it is refused as
+					// unknown (error, no effect), or the server treats it as the tool it
+					// resembles - then that tool's gate and audit duties apply in full.
+					if isErr && before == after && len(audit) == 0 {
+						res.probe("gate.padded_name.refused_as_unknown")
+						continue
+					}
+					res.probe("gate.padded_name.handled_as_tool")
+					if !c.allowed(tt) {
+						if !isErr {
+							add("C20.denied.ran", loc+"/"+tt+"+pad", "a call named %q was handled as tool %s, which must be refused (role %s, mutations %v, runtime control %v, principal %q), but answered success", n, tt, c.Role, c.Mut, c.RC, c.Principal)
+						}
+						if before != after {
+							add("C20.denied.effect", loc+"/"+tt+"+pad", "a refused call named %q changed the queue or the config directory", n)
+						}
+					}
+					want := 0
+					if mcpTools[tt].mutating {
+						want = 1
+					}
+					if len(audit) != want {
+						add("C20.audit.count", loc+"/"+tt+"+pad", "a call named %q was handled as tool %s (mutating=%v) and produced %d audit records, want %d", n, tt, mcpTools[tt].mutating, len(audit), want)
+					}
+					continue
+				}
 				res.probe(fmt.Sprintf("gate.%v", allowed))
 				if !allowed {
 					if !isErr {
@@ -494,7 +523,7 @@ func init() {
 		Run: RunMCPProgram, Enum: EnumMCPCases,
 		Level:      "other",
 		NonTrivial: func(p *Program, r *Result) bool { return r.Ops >= 1 },
-		Rule:       "complete enumeration of the MCP gate table: 31 known + 4 unknown tool names x role {read, operate, admin} x --enable-mutations x --enable-runtime-control x principal {absent, present, blank} (36 server configurations x 35 tools, plus the foreign-actor variant of every allowed mutating tool) against the reference gate written from internal/mcp/spec.md; tools/list = allowed set; refused => queue listing and config directory unchanged; exactly one audit record with all seven fields per mutating call; plus 9 config_apply / management variants (valid write, preview, parse/compile-invalid content, foreign and traversing paths, unknown keys/modes) over simfs with every touched path logged; distinct = (server configuration) and (apply variant) cases",
+		Rule:       "complete enumeration of the MCP gate table: 31 known + 4 unknown + 8 white-space-padded tool names x role {read, operate, admin} x --enable-mutations x --enable-runtime-control x principal {absent, present, blank} (36 server configurations x 43 names; a padded name is either refused as unknown without effect or held to the gate and audit duties of the tool it resembles; plus the foreign-actor variant of every allowed mutating tool) against the reference gate written from internal/mcp/spec.md; tools/list = allowed set; refused => queue listing and config directory unchanged; exactly one audit record with all seven fields per mutating call; plus 9 config_apply / management variants (valid write, preview, parse/compile-invalid content, foreign and traversing paths, unknown keys/modes) over simfs with every touched path logged; distinct = (server configuration) and (apply variant) cases",
 		RealStub: map[string]string{
 			"mcp.Server (Serve loop, framing, callTool, gating, audit, config_apply, management tools, SQLite-mode queue tools)": "real, over in-memory pipes",
 			"MCP admin-proxy mode, write_and_reload, runtime-control beyond the gate":                                            "not exercised (private http.Transport with a real dialer / real processes); allowed runtime-control tools fail their set-up check (no --pid-file) after the gate, so no process is started",
